@@ -1,5 +1,5 @@
 (* Extraction of the executable model (ExtrOcamlBasic only). *)
 From Coq Require Import NArith ZArith List FMapPositive Extraction ExtrOcamlBasic.
-From SdFs Require Import FsTypes FsBase FsFat FsMgr PrGlobalDef PrFsck PrFsck2.
+From SdFs Require Import FsTypes FsBase FsFat FsMgr FsExt PrGlobalDef PrFsck PrFsck2.
 Extraction Language OCaml.
-Extraction "../../build/extract/fs/fsx.ml" step init_state disk_set disk_get zero_block sfn_of_str clock_ts PositiveMap.elements PositiveMap.empty fs_inv_fast crash_inv_fast pend_of bpb_fat_size.
+Extraction "../../build/extract/fs/fsx.ml" step xstep init_state disk_set disk_get zero_block sfn_of_str clock_ts PositiveMap.elements PositiveMap.empty fs_inv_fast crash_inv_fast pend_of bpb_fat_size.
